@@ -48,3 +48,14 @@ Definition go_mean (xs : list float) (count : float) : float := (go_sum xs / cou
 (* the sum of the k highest values of the sorted list: cumulative[n-1] - cumulative[n-k-1] *)
 Definition go_sum_top (xs : list float) (k : nat) : float :=
   (go_sum xs - go_sum (firstn (length xs - k) xs))%float.
+
+(* the deviation, second pass with the COMPUTED mean:
+       var sumOfDiffs float64
+       for i := 0; i < n; i++ { sumOfDiffs += (Values[i] - mean) * (Values[i] - mean) }
+       StdDev = math.Sqrt(sumOfDiffs / count)
+   (IEEE addition is commutative in value; the accumulator is written term + acc as above) *)
+Definition dev_term (mean x : float) : float := ((x - mean) * (x - mean))%float.
+Definition go_sum_of_diffs (xs : list float) (mean : float) : float := accumulate (dev_term mean) 0%float xs.
+Definition go_variance (xs : list float) (count : float) : float :=
+  (go_sum_of_diffs xs (go_mean xs count) / count)%float.
+Definition go_stddev (xs : list float) (count : float) : float := sqrt (go_variance xs count).
